@@ -496,6 +496,14 @@ func (g *c19Gen) rflt(cols []c19Col) (*sx, []c19Col) {
 		if g.r.Intn(10) == 0 {
 			kids = append(kids, sxAtom("ghost"))
 		}
+		if g.r.Intn(8) == 0 {
+			// a repeated urn (adjacent or not): the engine built directly rejects it (duplicate urn) at execution; a parser
+			// that silently de-duplicates yields a different engine
+			kids = append(kids, kids[g.r.Intn(len(kids))])
+			if g.r.Bool() {
+				kids[0], kids[len(kids)-1] = kids[len(kids)-1], kids[0]
+			}
+		}
 		return sxList("rproj", kids...), keep
 	case 7:
 		// empty urn lists: both paths must reject
